@@ -919,6 +919,40 @@ struct RebH {
   std::string key_of(CO_Tree::iterator i) { return i == t.end() ? std::string("end") : ls((long)i.index()); }
   void ins(dim_t k, long v) { CO_Tree::iterator i = t.insert(k, Coefficient(v)); line("ins " + ls((long)k) + " " + ls(v), key_of(i)); }
   void era(dim_t k) { CO_Tree::iterator i = t.erase(k); line("era " + ls((long)k), key_of(i)); }
+  // hinted insertions: the hint is journalled as the slot index the iterator is on (or "end")
+  dim_t used_slot_at_or_before(dim_t p) const {
+    dim_t rs = t.*get(T_rs()); if (rs == 0) return 0; dim_t* ix = t.*get(T_idx());
+    if (p > rs) p = rs;
+    while (p >= 1 && ix[p] == UNUSED) --p;
+    return p;
+  }
+  CO_Tree::iterator iter_at(dim_t p) {   // iterator on the used slot p
+    dim_t* ix = t.*get(T_idx()); CO_Tree::iterator it = t.begin();
+    for (dim_t q = 1; q < p; ++q) if (ix[q] != UNUSED) ++it;
+    return it;
+  }
+  void insh(dim_t hp, dim_t k, long v, bool with_data) {
+    dim_t p = t.empty() ? 0 : used_slot_at_or_before(hp);
+    CO_Tree::iterator h = p == 0 ? t.end() : iter_at(p);
+    std::string hs = p == 0 ? std::string("end") : ls((long)p);
+    if (with_data) { CO_Tree::iterator i = t.insert(h, k, Coefficient(v)); line("insh " + hs + " " + ls((long)k) + " " + ls(v), key_of(i)); }
+    else { CO_Tree::iterator i = t.insert(h, k); line("insh0 " + hs + " " + ls((long)k), key_of(i)); }
+  }
+  // one insertion of the generated histories: plain, or hinted from a random used slot (stale or not) / end()
+  void insr(pplv::Rng& R, dim_t k, long v) {
+    unsigned m = R.below(6);
+    if (m < 3 || t.empty()) { ins(k, v); return; }
+    dim_t rs = t.*get(T_rs());
+    dim_t hp = m == 3 && R.chance(1, 3) ? 0 : (dim_t)R.range(1, (long)rs);
+    if (hp == 0) { CO_Tree::iterator h = t.end();
+      if (R.chance(1, 2)) { CO_Tree::iterator i = t.insert(h, k, Coefficient(v)); line("insh end " + ls((long)k) + " " + ls(v), key_of(i)); }
+      else { CO_Tree::iterator i = t.insert(h, k); line("insh0 end " + ls((long)k), key_of(i)); }
+      return; }
+    // a hint next to the key half of the time (what Sparse_Row's loops do), anywhere otherwise
+    if (R.chance(1, 2)) { dim_t* ix = t.*get(T_idx()); dim_t q = 1; while (q <= rs && (ix[q] == UNUSED || ix[q] < k)) ++q; hp = q > rs ? rs : q; if (R.chance(1, 2) && hp > 1) --hp; }
+    if (used_slot_at_or_before(hp) == 0) { dim_t* ix = t.*get(T_idx()); hp = 1; while (ix[hp] == UNUSED) ++hp; }
+    insh(hp, k, v, m != 5);
+  }
   void bulk(const std::vector<std::pair<dim_t, Coefficient> >& v) {
     VecIt it; it.v = &v; it.i = 0; CO_Tree c(it, v.size()); t.m_swap(c);
     std::string op = "bulk"; for (auto& p : v) { op += ' '; op += ls((long)p.first); op += ':'; op += cs(p.second); }
@@ -926,6 +960,8 @@ struct RebH {
   }
   void apply(const Op& o) {
     if (o.name == "ins") ins((dim_t)o.l(0), o.l(1));
+    else if (o.name == "insh") insh(o.s(0) == "end" ? 0 : (dim_t)o.l(0), (dim_t)o.l(1), o.l(2), true);
+    else if (o.name == "insh0") insh(o.s(0) == "end" ? 0 : (dim_t)o.l(0), (dim_t)o.l(1), 0, false);
     else if (o.name == "era") era((dim_t)o.l(0));
     else if (o.name == "bulk") {
       std::vector<std::pair<dim_t, Coefficient> > v;
@@ -973,17 +1009,17 @@ static void run_reb(long b, long seed) {
     for (size_t i = 0; i < keys.size(); ++i) v.push_back(std::make_pair(keys[i], Coefficient(R.range(-9, 9))));
     H.bulk(v);
     long extra = R.range(1, std::max(2L, N / 2));
-    for (long i = 0; i < extra; ++i) { dim_t k = (dim_t)R.range(0, (long)keys.back() + 3); H.ins(k, R.range(-9, 9)); bool has = false; for (dim_t q : keys) if (q == k) has = true; if (!has) keys.push_back(k); }
+    for (long i = 0; i < extra; ++i) { dim_t k = (dim_t)R.range(0, (long)keys.back() + 3); H.insr(R, k, R.range(-9, 9)); bool has = false; for (dim_t q : keys) if (q == k) has = true; if (!has) keys.push_back(k); }
   } else if (order == 4) {
     std::vector<dim_t> in;
     for (long i = 0; i < 3 * N; ++i) {
-      if (in.empty() || R.chance(3, 5)) { dim_t k = keys[R.below((unsigned)keys.size())]; H.ins(k, R.range(-9, 9)); bool has = false; for (dim_t q : in) if (q == k) has = true; if (!has) in.push_back(k); }
+      if (in.empty() || R.chance(3, 5)) { dim_t k = keys[R.below((unsigned)keys.size())]; H.insr(R, k, R.range(-9, 9)); bool has = false; for (dim_t q : in) if (q == k) has = true; if (!has) in.push_back(k); }
       else { size_t j = R.below((unsigned)in.size()); dim_t k = R.chance(1, 8) ? (dim_t)R.range(0, span) : in[j]; H.era(k);
              for (size_t q = 0; q < in.size(); ++q) if (in[q] == k) { in.erase(in.begin() + q); break; } }
     }
     keys = in;
   } else {
-    for (size_t i = 0; i < keys.size(); ++i) { H.ins(keys[i], R.range(-9, 9)); if (R.chance(1, 12)) H.ins(keys[R.below((unsigned)(i + 1))], R.range(-9, 9)); }
+    for (size_t i = 0; i < keys.size(); ++i) { H.insr(R, keys[i], R.range(-9, 9)); if (R.chance(1, 12)) H.insr(R, keys[R.below((unsigned)(i + 1))], R.range(-9, 9)); }
   }
   // erase storm
   std::vector<dim_t> ks = keys; std::sort(ks.begin(), ks.end());
@@ -993,8 +1029,93 @@ static void run_reb(long b, long seed) {
   size_t stop = R.chance(1, 3) ? ks.size() / 2 : ks.size();
   for (size_t i = 0; i < stop; ++i) { H.era(ks[i]); if (R.chance(1, 16)) H.era(ks[i] + 1); }
   // grow again after the storm
-  if (stop < ks.size()) for (long i = 0; i < std::min(20L, N); ++i) H.ins((dim_t)R.range(0, span), R.range(-9, 9));
+  if (stop < ks.size()) for (long i = 0; i < std::min(20L, N); ++i) H.insr(R, (dim_t)R.range(0, span), R.range(-9, 9));
   J.line("E " + hid);
+}
+
+
+// =================================================================================================
+//  stage 2c: Sparse_Row on the real tree (--rebrow 1).  One line per operation:
+//    W <id> <op> <args…> | <ret> | <size()> | <rs> <max_depth> <size_> <OK()> | <indexes[0]> <indexes[rs+1]> | <slots>
+//  hints are journalled as the slot index of the iterator (or "end").
+// =================================================================================================
+struct RowRebH {
+  Sparse_Row S; std::string hid; long step;
+  RowRebH() : step(0) {}
+  CO_Tree& tr() { return S.*get(S_tree()); }
+  dim_t rs() { return tr().*get(T_rs()); }
+  dim_t* ix() { return tr().*get(T_idx()); }
+  void line(const std::string& op, const std::string& ret) {
+    ++step; J.line("W " + hid + "." + ls(step) + " " + op + " | " + ret + " | " + ls((long)S.size()) + " | " + RebH::layout(tr()));
+  }
+  std::string key_of(Sparse_Row::iterator i) { return i == S.end() ? std::string("end") : ls((long)i.index()); }
+  dim_t used_slot_at_or_before(dim_t p) { if (tr().empty()) return 0; if (p > rs()) p = rs(); while (p >= 1 && ix()[p] == UNUSED) --p; return p; }
+  Sparse_Row::iterator iter_at(dim_t p) { Sparse_Row::iterator it = S.begin(); for (dim_t q = 1; q < p; ++q) if (ix()[q] != UNUSED) ++it; return it; }
+  bool apply(const Op& o) {
+    const std::string& n = o.name; dim_t sz = S.size();
+    auto hintit = [&](size_t a, std::string& hs) { dim_t p = o.s(a) == "end" ? 0 : used_slot_at_or_before((dim_t)o.l(a)); hs = p == 0 ? "end" : ls((long)p); return p == 0 ? S.end() : iter_at(p); };
+    if (n == "new") { S = Sparse_Row((dim_t)o.l(0)); line("new " + ls(o.l(0)), "-"); }
+    else if (n == "set") { dim_t i = (dim_t)o.l(0); if (i >= sz) return false; Sparse_Row::iterator r = S.insert(i, o.c(1)); line("set " + ls((long)i) + " " + o.s(1), key_of(r)); }
+    else if (n == "seth") { dim_t i = (dim_t)o.l(1); if (i >= sz) return false; std::string hs; Sparse_Row::iterator h = hintit(0, hs); Sparse_Row::iterator r = S.insert(h, i, o.c(2)); line("seth " + hs + " " + ls((long)i) + " " + o.s(2), key_of(r)); }
+    else if (n == "ins0") { dim_t i = (dim_t)o.l(0); if (i >= sz) return false; Sparse_Row::iterator r = S.insert(i); line("ins0 " + ls((long)i), key_of(r)); }
+    else if (n == "ins0h") { dim_t i = (dim_t)o.l(1); if (i >= sz) return false; std::string hs; Sparse_Row::iterator h = hintit(0, hs); Sparse_Row::iterator r = S.insert(h, i); line("ins0h " + hs + " " + ls((long)i), key_of(r)); }
+    else if (n == "reset") { dim_t i = (dim_t)o.l(0); if (i >= sz) return false; S.reset(i); line("reset " + ls((long)i), "-"); }
+    else if (n == "resetit") { dim_t p = used_slot_at_or_before((dim_t)o.l(0)); if (p == 0) return false; Sparse_Row::iterator r = S.reset(iter_at(p)); line("resetit " + ls((long)p), key_of(r)); }
+    else if (n == "resetafter") { dim_t i = (dim_t)o.l(0); if (i >= sz) return false; S.reset_after(i); line("resetafter " + ls((long)i), "-"); }
+    else if (n == "del") { dim_t i = (dim_t)o.l(0); if (i >= sz) return false; S.delete_element_and_shift(i); line("del " + ls((long)i), "-"); }
+    else if (n == "addz") { dim_t k = (dim_t)o.l(0), i = (dim_t)o.l(1); if (i > sz || sz + k > 100000) return false; S.add_zeroes_and_shift(k, i); line("addz " + ls((long)k) + " " + ls((long)i), "-"); }
+    else if (n == "swapc") { dim_t i = (dim_t)o.l(0), j = (dim_t)o.l(1); if (i >= sz || j >= sz) return false; S.swap_coefficients(i, j); line("swapc " + ls((long)i) + " " + ls((long)j), "-"); }
+    else if (n == "find") { dim_t i = (dim_t)o.l(1); if (i >= sz) return false; std::string hs; Sparse_Row::iterator h = hintit(0, hs);
+      Sparse_Row::iterator r = hs == "end" && o.s(0) == "end" && o.l(2) ? S.find(i) : S.find(h, i); line("find " + hs + " " + ls((long)i), key_of(r)); }
+    else if (n == "lb") { dim_t i = (dim_t)o.l(1); if (i > sz) return false; std::string hs; Sparse_Row::iterator h = hintit(0, hs);
+      Sparse_Row::iterator r = hs == "end" && o.s(0) == "end" && o.l(2) ? S.lower_bound(i) : S.lower_bound(h, i); line("lb " + hs + " " + ls((long)i), key_of(r)); }
+    else return false;
+    return true;
+  }
+};
+
+static void run_rebrow(long b, long seed) {
+  std::string hid = "w" + ls(b);
+  pplv::Rng R((uint64_t)seed * 9000011ull + (uint64_t)b * 131ull + 5ull);
+  unsigned cls = (unsigned)(b % 10) < 7 ? 0 : ((unsigned)(b % 10) < 9 ? 1 : 2);
+  long n = cls == 0 ? R.range(3, 40) : cls == 1 ? R.range(41, 260) : R.range(500, 1100);
+  long len = cls == 0 ? R.range(20, 120) : cls == 1 ? R.range(150, 500) : R.range(700, 1500);
+  J.line("H " + hid + " rebrow " + ls(n) + " " + ls(len));
+  RowRebH H; H.hid = hid;
+  H.apply(mk("row", "new", { ls(n) }));
+  unsigned fill = (unsigned)R.range(1, 9);      // how insertion-heavy this history is (density of the row)
+  for (long s = 0; s < len; ++s) {
+    dim_t sz = H.S.size(); if (sz == 0) { H.apply(mk("row", "addz", { "3", "0" })); continue; }
+    auto idx = [&]() { return ls((long)R.below((unsigned)sz)); };
+    auto hint = [&]() { return R.chance(1, 6) || H.rs() == 0 ? std::string("end") : ls((long)R.range(1, (long)H.rs())); };
+    auto val = [&]() { return ls(R.range(-9, 9)); };
+    unsigned m = R.below(30);
+    if (m < fill) H.apply(mk("row", "set", { idx(), val() }));
+    else if (m < fill + 4) H.apply(mk("row", "seth", { hint(), idx(), val() }));
+    else if (m < fill + 6) H.apply(mk("row", R.chance(1, 2) ? "ins0" : "ins0h", R.chance(1, 2) ? std::initializer_list<std::string>{ idx() } : std::initializer_list<std::string>{ hint(), idx() }));
+    else if (m < 17) H.apply(mk("row", "reset", { idx() }));
+    else if (m < 19) H.apply(mk("row", "resetit", { hint() }));
+    else if (m < 20) { if (R.chance(1, 3)) H.apply(mk("row", "resetafter", { idx() })); }
+    else if (m < 22) H.apply(mk("row", "del", { idx() }));
+    else if (m < 24) H.apply(mk("row", "addz", { ls(R.range(0, 3)), ls((long)R.below((unsigned)sz + 1)) }));
+    else if (m < 27) H.apply(mk("row", "swapc", { idx(), idx() }));
+    else if (m < 29) H.apply(mk("row", "find", { hint(), idx(), R.chance(1, 2) ? "1" : "0" }));
+    else H.apply(mk("row", "lb", { hint(), ls((long)R.below((unsigned)sz + 1)), R.chance(1, 2) ? "1" : "0" }));
+  }
+  J.line("E " + hid);
+}
+
+static void run_rebrowreplay(const char* path) {
+  FILE* f = fopen(path, "r"); if (!f) { perror(path); _exit(3); }
+  char buf[1 << 16]; RowRebH H; H.hid = "w0";
+  J.line("H w0 rebrow replay 0");
+  while (fgets(buf, sizeof buf, f)) {
+    std::istringstream is(buf); Op o; o.kind = "row"; if (!(is >> o.name)) continue; std::string t; while (is >> t) o.a.push_back(t);
+    if ((o.name == "find" || o.name == "lb") && o.a.size() == 2) o.a.push_back("0");
+    H.apply(o);
+  }
+  fclose(f);
+  J.line("E w0");
 }
 
 static void run_rebreplay(const char* path) {
@@ -1042,6 +1163,12 @@ int main(int argc, char** argv) {
   if (rp) return pplv::run_batches(0, 1, [&](long) { run_replay(rp); }, 20);
   { const char* rr = pplv::arg_str(argc, argv, "--rebreplay", nullptr);
     if (rr) return pplv::run_batches(0, 1, [&](long) { run_rebreplay(rr); }, 20);
+    const char* rw = pplv::arg_str(argc, argv, "--rebrowreplay", nullptr);
+    if (rw) return pplv::run_batches(0, 1, [&](long) { run_rebrowreplay(rw); }, 20);
+    if (pplv::arg_long(argc, argv, "--rebrow", 0)) {
+      long seed = pplv::arg_long(argc, argv, "--seed", 1), first = pplv::arg_long(argc, argv, "--first", 0), last = pplv::arg_long(argc, argv, "--last", 40);
+      return pplv::run_batches(first, last, [&](long bb) { run_rebrow(bb, seed); }, 20);
+    }
     if (pplv::arg_long(argc, argv, "--reb", 0)) {
       long seed = pplv::arg_long(argc, argv, "--seed", 1), first = pplv::arg_long(argc, argv, "--first", 0), last = pplv::arg_long(argc, argv, "--last", 40);
       return pplv::run_batches(first, last, [&](long bb) { run_reb(bb, seed); }, 20);
